@@ -224,6 +224,10 @@ func runC08(ctx *Ctx) {
 		g := newPageGen(newRng(ctx.Seed, fmt.Sprintf("C08/%d", i)))
 		g.Weights = []W{{"para", 30}, {"shortpara", 10}, {"heading", 4}, {"list", 5}, {"quote", 2}, {"datatable", 8},
 			{"figure", 10}, {"img", 10}, {"video", 6}, {"embed", 8}, {"links", 8}, {"unlikely", 3}, {"divwrap", 6}, {"baretext", 4}, {"hidden", 2}}
+		g.RepeatMedia = i%2 == 1
+		if g.RepeatMedia {
+			rep.hist("pages-with-repeated-media-urls")
+		}
 		run(g.Page(g.R.Range(4, 14), "t"))
 	}
 	corr.run(ctx)
